@@ -304,7 +304,12 @@ def method(eng, s, name):
         return Builtin('str.upper', lambda e, a, k: s)
     if name == 'startswith':
         def f(e, a, k):
-            return starts(e, s, a[0].lit())
+            pats = a[0] if isinstance(a[0], tuple) else (a[0],)
+            rs = [starts(e, s, p_.lit()) for p_ in pats]
+            if any(r is True for r in rs):
+                return True
+            rs = [r for r in rs if r is not False]
+            return b_or(*rs) if rs else False
         return Builtin('str.startswith', f)
     raise EngineErrorD('str.%s on a digit string' % name)
 
